@@ -198,8 +198,5 @@ func VerifConnectFlagsString(b byte) string { return connectFlags(b).String() }
 // VerifConnAckFlagsString renders CONNACK flags.
 func VerifConnAckFlagsString(b byte) string { return connAckFlags(b).String() }
 
-// VerifStars is stars().
-func VerifStars(n int) string { return stars(n) }
-
 // VerifProtocolNameVar exposes the package-level protocol name slice.
 func VerifProtocolNameVar() []byte { return mqtt5 }
